@@ -20,7 +20,7 @@ func init() {
 		},
 		NotDec: []string{
 			"effects inside dependencies reached by reflection or other dynamic calls (yaml, mapstructure, mergo); library functions are followed through their static calls only",
-			"calls through library interfaces and function values other than local closures, bound methods and the repository's function tables (resolved by the call graph)",
+			"calls through library interfaces; function values are followed when they are local closures, bound methods, entries of the repository's function tables (call graph) or repository functions used as a value in an unlicensed instruction (e.g. handed to os.Expand)",
 		},
 		Assume: []string{"the sink table (os/exec command construction and start, os.StartProcess, syscall exec, os.Setenv/Unsetenv/Clearenv/Chdir) is complete for this code base; file-system mutation (e.g. creating the DAGs directory on first listing) is outside the property's statement and not a sink"},
 	})
@@ -326,6 +326,22 @@ func runC19(e *Env) {
 		work = work[1:]
 		for _, b := range f.Blocks {
 			for _, in := range b.Instrs {
+				// a repository function used as a value (handed to os.Expand, stored in a
+				// table, ...) may be called by whoever receives it
+				if !c.licensed(in) {
+					var callee ssa.Value
+					if ci, isCall := in.(ssa.CallInstruction); isCall {
+						callee = ci.Common().Value
+					}
+					for _, op := range in.Operands(nil) {
+						if op == nil || *op == nil || *op == callee {
+							continue
+						}
+						if fv, isFn := (*op).(*ssa.Function); isFn && e.P.Funcs[fv] {
+							push(fv, ShortFn(f))
+						}
+					}
+				}
 				switch x := in.(type) {
 				case *ssa.MakeClosure:
 					if !c.licensed(x) {
